@@ -2,10 +2,14 @@
 
 Explorer F: a counting run records every write-side environment call issued by
 the append through the public open_with / mkdirs parameters; then for every k up
-to the first call that touches _metadata for writing the append is re-run on a
-fresh copy of the dataset with call k failing (OSError; for write calls also a
-torn write) and with the process abandoned at k (os._exit in a forked child: no
-handler of the library runs, unflushed buffers are lost).
+to (and including) the first call that touches _metadata for writing the append
+is re-run on a fresh copy of the dataset with call k failing (OSError; for write
+calls also a torn write) and with the process abandoned at k (os._exit in a
+forked child: no handler of the library runs, unflushed buffers are lost).
+
+The counting run itself is judged too: the summary files are written last, every
+file the append creates or changes was opened through open_with, every directory
+through mkdirs, and no pre-existing data file is touched.
 """
 import os
 
@@ -13,26 +17,67 @@ ID = "C19"
 LEVEL = "fault_enumeration"
 FLAVOUR = "plain"
 TIMEOUT = 300
-RULE = ("scenario = hive dataset {unpartitioned, partitioned on 1 column, on 2 columns} x existing row groups {1, 3} x "
-        "appended frame producing 1 / 2 / 4 new row groups x {first append, second append}; fault points = every "
-        "write-side call (mkdirs, open for writing, write, close) before the first call that opens _metadata for "
-        "writing, each with variants {OSError, torn write (first half written, then OSError), crash (process "
-        "abandoned), sticky (this and every later write-side call fail: a full disk)}; thorough adds deviation bound "
-        "2: for every first fault, every second failing call among those the library still issues afterwards; oracle: if the append raised or was abandoned a fresh ParquetFile(dir) reads exactly the old "
-        "content; if it returned normally exactly the new content; no pre-existing data file is opened in a "
-        "writing mode or changed; non-trivial = a fault point at which the append had already issued >= 1 "
+RULE = ("scenario families: A = hive dataset {unpartitioned, partitioned on 1 column, on 2 columns} x existing row groups "
+        "{1, 3} x appended frame producing 1 / 2 / 4 new row groups x {first append, second append}; N (part numbering "
+        "histories) = {11 existing part files, 3 written of which the first 2 were removed} x {unpartitioned, 1 partition "
+        "column} x 2 new row groups; Z = append to a dataset of 0 row groups (unpartitioned) x 1 / 2 / 4 new row groups; "
+        "S = ParquetFile.write_row_groups through an fsspec-style environment (open_with = the bound open of a local "
+        "filesystem subclass, whose rename / mv / rm are fault points as well) x options {none, sort_key, sort_key + "
+        "sort_pnames} x {unpartitioned, 1 partition column} x 1 / 2 new row groups on 3 existing ones; every scenario is "
+        "split into cells by k modulo the number of new row groups; fault points = every "
+        "write-side call (mkdirs, open for writing, write, close, rename) before the first call that opens _metadata for "
+        "writing, and that opening call itself (it fails before it truncates), each with variants {OSError, torn write (first half written, then OSError), crash (process "
+        "abandoned), sticky (this and every later write-side call fail), diskfull (a write fails - quick: the first or the last write of a file, thorough: any - then every later write / close / "
+        "mkdirs / rename fails while files can still be opened and truncated)}; retry history (families A, N, Z): "
+        "after a fault at the opening or the closing call of a new part file (thorough: at every call) the same append is "
+        "repeated without faults, once through a fresh fastparquet.write and once through the very ParquetFile handle "
+        "whose write_row_groups failed; thorough adds deviation bound "
+        "2: for every first fault, every second failing call among those the library still issues afterwards, and larger N / Z / S families; "
+        "oracle: if the append raised or was abandoned a fresh ParquetFile(dir) reads exactly the old "
+        "rows (id, s, p, q) and _metadata / _common_metadata are byte-identical; if it returned normally exactly the new rows; after a retry exactly the new rows; "
+        "no pre-existing data file is opened in a "
+        "writing mode or changed (renaming by sort_pnames is allowed once the append returned); on the fault-free trace: "
+        "no call on a data file or directory after the first opening of a summary file, at least 3 calls per expected new "
+        "part file before it, every created / changed file was opened through open_with (or is the target of a rename), "
+        "every created directory went through mkdirs; non-trivial = a fault point at which the append had already issued >= 1 "
         "write-side call")
 ASSUMPTIONS = ["one failing call per execution (quick), up to two or a failing suffix (sticky)", "faults are injected on write-side calls only (reads pass through)",
-               "crash = os._exit at the call, on tmpfs (no reordering of completed writes)"]
+               "crash = os._exit at the call, on tmpfs (no reordering of completed writes)",
+               "datasets carry a _metadata file (a directory of part files without summary has no commit point: outside the property)"]
+SUMMARY = ("_metadata", "_common_metadata")
 
 
 def points(tier):
     pts = []
+
+    def add(slices, **kw):
+        # one scenario = `slices` cells; cell j takes the fault points k with k % slices == j
+        for j in range(slices):
+            pts.append(dict(kw, slice=j, slices=slices, tier=tier))
+
+    thorough = tier == "thorough"
+    # family A
     for parts in (0, 1, 2):
         for existing in (1, 3):
             for newrgs in (1, 2, 4):
                 for second in (False, True):
-                    pts.append({"parts": parts, "existing": existing, "newrgs": newrgs, "second": second, "tier": tier})
+                    add(newrgs, parts=parts, existing=existing, newrgs=newrgs, second=second)
+    # family N: part numbers with two digits / part numbers that do not start at 0
+    for parts in ((0, 1, 2) if thorough else (0, 1)):
+        for hist, existing in (("eleven", 11), ("removed", 3)):
+            for newrgs in ((2, 4) if thorough else (2,)):
+                for second in ((False, True) if thorough else (False,)):
+                    add(newrgs, parts=parts, existing=existing, newrgs=newrgs, second=second, hist=hist)
+    # family Z: no row group yet
+    for newrgs in (1, 2, 4):
+        for second in ((False, True) if thorough else (False,)):
+            add(newrgs, parts=0, existing=0, newrgs=newrgs, second=second)
+    # family S: write_row_groups and its options, fsspec-style environment
+    for parts in ((0, 1, 2) if thorough else (0, 1)):
+        for existing in ((1, 3) if thorough else (3,)):
+            for newrgs in ((1, 2, 4) if thorough else (1, 2)):
+                for opt in ("none", "sort_key", "sort_pnames"):
+                    add(newrgs, parts=parts, existing=existing, newrgs=newrgs, second=False, opt=opt)
     return pts
 
 
@@ -53,6 +98,7 @@ class Env:
 
     def __init__(self, fail_at=None, variant="error"):
         self.calls = []
+        self.renames = []
         self.fail_at = set() if fail_at is None else ({fail_at} if isinstance(fail_at, int) else set(fail_at))
         self.variant = variant
         self.fired = False
@@ -62,7 +108,10 @@ class Env:
         k = len(self.calls)
         self.calls.append((kind, path))
         # "sticky": from the first fault on every write-side call fails (a full disk)
-        if k in self.fail_at or (self.variant == "sticky" and self.fired):
+        # "diskfull": from the first fault on every write / close / mkdirs fails, but files can still be opened
+        # (and are truncated by that): what a full disk really does
+        if k in self.fail_at or (self.variant == "sticky" and self.fired) or (
+                self.variant == "diskfull" and self.fired and not kind.startswith("open")):
             self.fired = True
             self.nfired += 1
             if self.variant == "crash":
@@ -70,17 +119,82 @@ class Env:
             return True
         return False
 
+    def disarm(self):
+        """no further faults (the retry after a failure)"""
+        self.fail_at = set()
+        self.variant = "error"
+        self.fired = False
+
     def mkdirs(self, path):
         if self._point("mkdirs", path):
             raise Fault("injected: mkdirs %s" % path)
         os.makedirs(path, exist_ok=True)
 
     def open_with(self, path, mode="rb"):
-        if "w" not in mode and "+" not in mode and "a" not in mode:
+        if "w" not in mode and "+" not in mode and "a" not in mode and "x" not in mode:
             return open(path, mode)
         if self._point("open:" + mode, path):
             raise Fault("injected: open %s %s" % (path, mode))
         return WFile(self, path, open(path, mode))
+
+    def callbacks(self):
+        return self.open_with, self.mkdirs
+
+
+_FS = {}
+
+
+def fs_env(fail_at=None, variant="error"):
+    """The environment as dask / pandas supply it: open_with is the bound `open` of an fsspec filesystem.
+    ParquetFile then takes its fsspec branch and keeps the filesystem (pf.fs), whose rename / mv / rm are
+    counted and failed like the other write-side calls."""
+    if "cls" not in _FS:
+        from fsspec.implementations.local import LocalFileSystem
+
+        class FsEnv(LocalFileSystem):
+            cachable = False
+
+            def __init__(self, fail_at=None, variant="error"):
+                LocalFileSystem.__init__(self)
+                Env.__init__(self, fail_at, variant)
+
+            _point = Env._point
+            disarm = Env.disarm
+
+            def open(self, path, mode="rb", **kw):
+                if "w" not in mode and "+" not in mode and "a" not in mode and "x" not in mode:
+                    return LocalFileSystem.open(self, path, mode, **kw)
+                if self._point("open:" + mode, path):
+                    raise Fault("injected: open %s %s" % (path, mode))
+                return WFile(self, path, open(path, mode))
+
+            def mv(self, path1, path2, **kw):
+                self.renames.append((path1, path2))
+                if self._point("rename", path1):
+                    raise Fault("injected: rename %s -> %s" % (path1, path2))
+                os.rename(path1, path2)
+
+            rename = mv
+
+            def rm_file(self, path):
+                if self._point("rm", path):
+                    raise Fault("injected: rm %s" % path)
+                os.remove(path)
+
+            def rm(self, path, recursive=False, maxdepth=None):
+                for q in ([path] if isinstance(path, str) else list(path)):
+                    self.rm_file(q)
+
+            def count_mkdirs(self, path):
+                if self._point("mkdirs", path):
+                    raise Fault("injected: mkdirs %s" % path)
+                os.makedirs(path, exist_ok=True)
+
+            def callbacks(self):
+                return self.open, self.count_mkdirs
+
+        _FS["cls"] = FsEnv
+    return _FS["cls"](fail_at, variant)
 
 
 class WFile:
@@ -124,11 +238,16 @@ def frame(start, n, parts):
                          "q": pd.Series(["x" if i % 3 else "y" for i in range(start, start + n)], dtype=object)})
 
 
+def rows_of(df):
+    """canonical rows (id, s, p, q) of a frame, sorted; partition columns come back as categoricals"""
+    from mc import oracles as O
+    cols = [O.series_to_list(df[c]) for c in ("id", "s", "p", "q")]
+    return sorted((int(i), str(s), int(p), str(q)) for i, s, p, q in zip(*cols))
+
+
 def content(path):
     import fastparquet
-    from mc import oracles as O
-    df = fastparquet.ParquetFile(path).to_pandas()
-    return sorted(O.series_to_list(df["id"]))
+    return rows_of(fastparquet.ParquetFile(path).to_pandas())
 
 
 def snapshot(path):
@@ -141,50 +260,99 @@ def snapshot(path):
     return out
 
 
+def dirs_of(path):
+    out = set()
+    for root, dirs, files in os.walk(path):
+        for dn in dirs:
+            out.add(os.path.relpath(os.path.join(root, dn), path))
+    return out
+
+
+def _part_no(path):
+    import re
+    m = re.search(r"part\.(\d+)\.parquet$", path or "")
+    return int(m.group(1)) if m else -1
+
+
+def _newest_first(rg):
+    """sort_key of family S: highest part number first, so that the appended row groups lead the list and
+    sort_pnames has to rename every pre-existing file"""
+    return -_part_no(rg.columns[0].file_path)
+
+
 def run(p):
     import shutil
     import fastparquet
     from mc.scratch import scratch
     parts, existing, newrgs, second = p["parts"], p["existing"], p["newrgs"], p["second"]
+    hist, opt = p.get("hist"), p.get("opt")
+    nslices, myslice = p.get("slices", 1), p.get("slice", 0)
+    thorough = p.get("tier") == "thorough"
     pcols = ["p", "q"][:parts]
     d = scratch()
     master = os.path.join(d, "master")
     n0 = 2 * existing
     fastparquet.write(master, frame(0, n0, parts), file_scheme="hive", partition_on=pcols,
-                      row_group_offsets=list(range(0, n0, 2)), write_index=False)
+                      row_group_offsets=list(range(0, n0, 2)) if n0 else None, write_index=False)
+    if hist == "removed":
+        # part numbers that do not start at 0: the files of the first two row groups are removed again
+        pf0 = fastparquet.ParquetFile(master)
+        pf0.remove_row_groups([rg for rg in pf0.row_groups if _part_no(rg.columns[0].file_path) in (0, 1)])
     if second:
         fastparquet.write(master, frame(500, 4, parts), file_scheme="hive", partition_on=pcols, append=True,
                           row_group_offsets=[0, 2])
     old = content(master)
     old_files = snapshot(master)
+    old_dirs = dirs_of(master)
     newdf = frame(1000, 2 * newrgs, parts)
-    new = sorted(old + list(newdf["id"]))
+    new = sorted(old + rows_of(newdf))
     rgo = list(range(0, 2 * newrgs, 2))
+    # number of part files the append has to create
+    nfiles = sum((len(newdf.iloc[a:a + 2].groupby(pcols if len(pcols) > 1 else pcols[0])) if pcols else 1) for a in rgo)
+    make_env = fs_env if opt else Env
+    wrg_opts = {"sort_key": {"sort_key": _newest_first},
+                "sort_pnames": {"sort_key": _newest_first, "sort_pnames": True}}.get(opt, {})
 
     def do_append(path, env):
-        fastparquet.write(path, newdf, file_scheme="hive", partition_on=pcols, append=True, row_group_offsets=rgo,
-                          open_with=env.open_with, mkdirs=env.mkdirs)
+        ow, mk = env.callbacks()
+        if opt:
+            pf = fastparquet.ParquetFile(path, open_with=ow)
+            pf.write_row_groups(newdf, rgo, open_with=ow, mkdirs=mk, **wrg_opts)
+        else:
+            fastparquet.write(path, newdf, file_scheme="hive", partition_on=pcols, append=True, row_group_offsets=rgo,
+                              open_with=ow, mkdirs=mk)
 
     # counting run
     work = os.path.join(d, "work")
     shutil.copytree(master, work)
-    env = Env()
+    env = make_env()
     do_append(work, env)
     calls = list(env.calls)
-    if content(work) != new:
+    try:
+        got0 = content(work)
+    except Exception as e:
+        return {"ok": False, "outcome": "fault_free_wrong", "nontrivial": True,
+                "sig": {"parts": parts, "symptom": "fault_free_unreadable"},
+                "detail": "after the fault-free append the dataset cannot be read: %s: %s" % (type(e).__name__, str(e)[:100])}
+    if got0 != new:
         return {"ok": False, "outcome": "fault_free_wrong", "nontrivial": True,
                 "sig": {"parts": parts, "symptom": "fault_free_wrong"}, "detail": "the fault-free append does not produce the new content"}
     limit = len(calls)
     for i, (kind, path) in enumerate(calls):
-        if kind.startswith("open") and os.path.basename(path) in ("_metadata", "_common_metadata"):
+        if kind.startswith("open") and os.path.basename(path) in SUMMARY:
             limit = i
             break
+    first_rename = min([i for i, c in enumerate(calls) if c[0] in ("rename", "rm")] or [len(calls)])
     sigs = {}
     detail = [""]
-    faults = nontriv = 0
+    faults = nontriv = retries = 0
 
     def bad(symptom, msg, **extra):
         s = {"parts": parts, "second": second, "symptom": symptom}
+        if opt:
+            s["opt"] = opt
+        if hist:
+            s["hist"] = hist
         s.update(extra)
         k = repr(sorted(s.items(), key=str))
         if k not in sigs:
@@ -192,35 +360,139 @@ def run(p):
             if not detail[0]:
                 detail[0] = msg
 
+    def phase_of(k):
+        """extra signature keys of the fault points the first version of this check did not have"""
+        if k == limit:
+            return {"phase": "summary_open"}
+        if k >= first_rename:
+            return {"phase": "renames"}
+        return {"phase": "parts"} if opt else {}
+
     def judge(what, outcome, kind, variant, k):
+        ph = phase_of(k)
         try:
             got = content(work)
         except Exception as e:
             bad("dataset_unreadable", "%s: append %s; afterwards the dataset cannot be read: %s: %s" % (
-                what, outcome, type(e).__name__, str(e)[:100]), kind=kind.split(":")[0], variant=variant, outcome=outcome)
+                what, outcome, type(e).__name__, str(e)[:100]), kind=kind.split(":")[0], variant=variant, outcome=outcome, **ph)
             return
         want = new if outcome == "returned" else old
         if got != want:
             bad("wrong_content", "%s: append %s; a fresh open reads %d rows %s, expected the %s content (%d rows)" % (
-                what, outcome, len(got), "" if len(got) > 12 else got, "new" if outcome == "returned" else "old", len(want)),
-                kind=kind.split(":")[0], variant=variant, outcome=outcome, rg_of_fault="first" if _first_rg(calls, k) else "later")
+                what, outcome, len(got), "" if len(got) > 12 else [r[0] for r in got], "new" if outcome == "returned" else "old", len(want)),
+                kind=kind.split(":")[0], variant=variant, outcome=outcome, rg_of_fault="first" if _first_rg(calls, k) else "later", **ph)
         after = snapshot(work)
         for rel, h in old_files.items():
-            if os.path.basename(rel) in ("_metadata", "_common_metadata"):
+            if os.path.basename(rel) in SUMMARY:
+                # a failed append has not started to rewrite the summary files
+                if outcome != "returned" and after.get(rel) != h:
+                    bad("summary_changed", "%s: append %s, but %s was %s" % (
+                        what, outcome, rel, "removed" if rel not in after else "rewritten"), variant=variant, outcome=outcome,
+                        file=os.path.basename(rel), **ph)
                 continue
+            if opt == "sort_pnames" and outcome == "returned":
+                continue            # a completed sort_pnames has renamed the pre-existing files
             if after.get(rel) != h:
                 bad("existing_file_changed", "%s: pre-existing data file %s was %s" % (
-                    what, rel, "removed" if rel not in after else "modified"), variant=variant)
+                    what, rel, "removed" if rel not in after else "modified"), variant=variant,
+                    **(dict(ph, outcome=outcome) if opt else ph))
 
+    # ---- the fault-free trace --------------------------------------------------------------------
     # the append never opens an existing data file for writing
     for kind, path in calls:
         rel = os.path.relpath(path, work)
-        if kind.startswith("open") and rel in old_files and os.path.basename(rel) not in ("_metadata", "_common_metadata"):
+        if kind.startswith("open") and rel in old_files and os.path.basename(rel) not in SUMMARY:
             bad("existing_file_opened_for_writing", "fault-free append opened existing data file %s with %s" % (rel, kind))
-    for k in range(limit):
+    # parts first, summary last: once a summary file has been opened for writing nothing else is touched
+    for i in range(limit, len(calls)):
+        kind, path = calls[i]
+        if os.path.basename(path) not in SUMMARY:
+            bad("summary_not_last", "fault-free append: call %d (%s %s) comes after _metadata was opened for writing at call %d" % (
+                i, kind, os.path.relpath(path, work), limit), kind=kind.split(":")[0])
+            break
+    # all part files are written (open, >= 1 write, close) before that point
+    if limit < 3 * nfiles:
+        bad("fault_space_too_small", "fault-free append: only %d write-side calls precede the first opening of a summary file, "
+            "%d new part files need at least %d" % (limit, nfiles, 3 * nfiles))
+    # all I/O goes through the caller's open_with / mkdirs
+    after0 = snapshot(work)
+    opened = set(os.path.relpath(path, work) for kind, path in calls if kind.startswith("open"))
+    moved_to = set(os.path.relpath(b, work) for a, b in env.renames)
+    moved_from = set(os.path.relpath(a, work) for a, b in env.renames)
+    for rel, h in sorted(after0.items()):
+        if old_files.get(rel) != h and rel not in opened and rel not in moved_to:
+            bad("write_bypasses_open_with", "fault-free append: %s was %s without a call of open_with" % (
+                rel, "changed" if rel in old_files else "created"),
+                file="summary" if os.path.basename(rel) in SUMMARY else "data")
+    made = [os.path.relpath(path, work) for kind, path in calls if kind == "mkdirs"]
+    for dn in sorted(dirs_of(work) - old_dirs):
+        if not any(m == dn or m.startswith(dn + os.sep) for m in made):
+            bad("mkdir_bypasses_mkdirs", "fault-free append: directory %s was created without a call of mkdirs" % dn)
+    for rel, h in sorted(old_files.items()):
+        if os.path.basename(rel) in SUMMARY or after0.get(rel) == h:
+            continue
+        if opt == "sort_pnames" and rel in moved_from | moved_to:
+            continue
+        bad("existing_file_changed", "fault-free append: pre-existing data file %s was %s" % (
+            rel, "removed" if rel not in after0 else "modified"), variant="none")
+
+    # ---- retry history ---------------------------------------------------------------------------
+    def retry_point(k):
+        if opt or k >= limit:
+            return False
+        if thorough:
+            return True
+        kind, path = calls[k]
+        return (kind.startswith("open") or kind == "close") and os.path.basename(path).startswith("part.")
+
+    def judge_retry(what, flavour, k):
+        try:
+            got = content(work)
+        except Exception as e:
+            bad("retry_unreadable", "%s; the append was then repeated without faults (%s): the dataset cannot be read: %s: %s" % (
+                what, flavour, type(e).__name__, str(e)[:100]), flavour=flavour)
+            return
+        if got != new:
+            ids = [r[0] for r in got]
+            bad("retry_wrong_content", "%s; the append was then repeated without faults (%s): a fresh open reads %d rows, "
+                "expected the new content (%d rows); ids read more than once: %s" % (
+                    what, flavour, len(got), len(new), sorted(set(i for i in ids if ids.count(i) > 1))[:6]),
+                flavour=flavour, rg_of_fault="first" if _first_rg(calls, k) else "later")
+
+    def retry_same_handle(what, k, kind, variant):
+        """the append through one ParquetFile handle: write_row_groups fails at call k, then is called again"""
+        shutil.rmtree(work, ignore_errors=True)
+        shutil.copytree(master, work)
+        e3 = Env(k, variant)
+        pf = fastparquet.ParquetFile(work, open_with=e3.open_with)
+        try:
+            pf.write_row_groups(newdf, rgo, open_with=e3.open_with, mkdirs=e3.mkdirs)
+            return                     # a swallowed fault: judged by the main enumeration
+        except Exception:
+            pass
+        if not e3.fired:
+            bad("nondeterministic_call_sequence", "%s: the fault point was not reached through write_row_groups" % what)
+            return
+        e3.disarm()
+        try:
+            pf.write_row_groups(newdf, rgo, open_with=e3.open_with, mkdirs=e3.mkdirs)
+        except Exception as e:
+            bad("retry_raised", "%s; write_row_groups on the same handle was then repeated without faults and raised %s: %s" % (
+                what, type(e).__name__, str(e)[:100]), flavour="same_handle")
+            return
+        judge_retry(what, "same_handle", k)
+
+    npoints = limit + 1 if limit < len(calls) else limit
+    for k in range(npoints):
+        if k % nslices != myslice:
+            continue
         kind, cpath = calls[k]
         variants = ["error", "crash", "sticky"] + (["torn"] if kind == "write" else [])
-        if p.get("tier") == "thorough":
+        if kind == "write" and (thorough or calls[k - 1][0].startswith("open") or calls[k + 1][0] == "close"):
+            variants.append("diskfull")     # quick: the first and the last write of every file
+        if k == limit:
+            variants = ["error", "crash"]       # the opening of _metadata fails before it truncates / is never reached
+        if thorough and k < limit:
             variants.append("pairs")
         for variant in variants:
             if variant == "pairs":
@@ -228,7 +500,7 @@ def run(p):
                 # fault (clean-up closes, further part files), before any write to the summary files
                 shutil.rmtree(work, ignore_errors=True)
                 shutil.copytree(master, work)
-                e1 = Env(k, "error")
+                e1 = make_env(k, "error")
                 try:
                     do_append(work, e1)
                 except Exception:
@@ -236,7 +508,7 @@ def run(p):
                 seq = list(e1.calls)
                 stop = len(seq)
                 for i2, (kind2, path2) in enumerate(seq):
-                    if kind2.startswith("open") and os.path.basename(path2) in ("_metadata", "_common_metadata"):
+                    if kind2.startswith("open") and os.path.basename(path2) in SUMMARY:
                         stop = i2
                         break
                 for j in range(k + 1, stop):
@@ -246,7 +518,7 @@ def run(p):
                     shutil.copytree(master, work)
                     what = "parts=%d existing=%d new=%d second=%s: calls %d and %d (%s, then %s %s) fail" % (
                         parts, existing, newrgs, second, k, j, kind, seq[j][0], os.path.relpath(seq[j][1], work))
-                    e2 = Env({k, j}, "error")
+                    e2 = make_env({k, j}, "error")
                     try:
                         do_append(work, e2)
                         outcome = "returned"
@@ -262,14 +534,15 @@ def run(p):
                 nontriv += 1
             shutil.rmtree(work, ignore_errors=True)
             shutil.copytree(master, work)
-            what = "parts=%d existing=%d new=%d second=%s: call %d/%d (%s %s) %s" % (
-                parts, existing, newrgs, second, k, limit, kind, os.path.relpath(cpath, work), variant)
+            what = "parts=%d existing=%d new=%d second=%s%s%s: call %d/%d (%s %s) %s" % (
+                parts, existing, newrgs, second, " history=%s" % hist if hist else "",
+                " write_row_groups(%s)" % opt if opt else "", k, limit, kind, os.path.relpath(cpath, work), variant)
             outcome = None
             if variant == "crash":
                 pid = os.fork()
                 if pid == 0:
                     try:
-                        e2 = Env(k, "crash")
+                        e2 = make_env(k, "crash")
                         do_append(work, e2)
                     finally:
                         os._exit(0)
@@ -277,7 +550,7 @@ def run(p):
                 code = os.WEXITSTATUS(status) if os.WIFEXITED(status) else -1
                 outcome = "abandoned" if code == 77 else "returned"
             else:
-                e2 = Env(k, variant)
+                e2 = make_env(k, variant)
                 try:
                     do_append(work, e2)
                     outcome = "returned"
@@ -287,9 +560,22 @@ def run(p):
                     bad("nondeterministic_call_sequence", "%s: the fault point was not reached on replay" % what)
                     continue
             judge(what, outcome, kind, variant, k)
+            # history: the failed append is repeated
+            if outcome != "returned" and variant in ("error", "torn", "crash") and retry_point(k):
+                retries += 1
+                try:
+                    do_append(work, Env())
+                    judge_retry(what, "fresh_write", k)
+                except Exception as e:
+                    bad("retry_raised", "%s; the append was then repeated without faults and raised %s: %s" % (
+                        what, type(e).__name__, str(e)[:100]), flavour="fresh_write")
+                if variant != "crash":
+                    retries += 1
+                    retry_same_handle(what, k, kind, variant)
     ok = not sigs
     return {"ok": ok, "outcome": "intact" if ok else "damaged", "nontrivial": nontriv > 0,
-            "counts": {"fault_points": faults, "calls_before_metadata": limit, "calls_total": len(calls)},
+            "counts": {"fault_points": faults, "retries": retries,
+                       "calls_before_metadata": limit if myslice == 0 else 0, "calls_total": len(calls) if myslice == 0 else 0},
             "sig": list(sigs.values()) or None, "detail": detail[0]}
 
 
@@ -304,10 +590,15 @@ def _first_rg(calls, k):
 
 
 LEVEL_TEXT = ("Complete enumeration of fault points: for 36 scenarios (partitioning depth x existing row groups x number of "
-              "new row groups x first/second append) every write-side environment call issued before _metadata is opened "
-              "for writing is failed in turn (error, torn write, process crash in a forked child), on a fresh copy of "
-              "the dataset, followed by a fresh open from disk compared with the old / new content and a byte comparison "
-              "of every pre-existing data file.")
+              "new row groups x first/second append), 4 part-numbering histories (11 existing parts; parts 0 and 1 removed), "
+              "3 appends to a dataset without row groups and 12 ParquetFile.write_row_groups scenarios (options none / "
+              "sort_key / sort_key + sort_pnames through an fsspec-style environment whose rename is a fault point) every "
+              "write-side environment call issued before _metadata is opened for writing, and that opening call, is failed "
+              "in turn (error, torn write, failing suffix, process crash in a forked child), on a fresh copy of "
+              "the dataset, followed by a fresh open from disk compared row by row (all columns) with the old / new content, a byte comparison "
+              "of every pre-existing data file and of the summary files, and - at the opening and closing calls of the new "
+              "part files - a fault-free repetition of the append through a fresh write and through the same handle.  The "
+              "fault-free trace is checked for 'summary last' and for I/O that bypasses open_with / mkdirs.")
 LEVEL_NOTE = ("Trusted: the recorded call sequence is deterministic (replays assert that the fault point is reached); one "
               "fault per execution; tmpfs (no write reordering).")
 TECHNIQUE = "exhaustive fault-point enumeration through open_with/mkdirs wrappers, incl. torn writes and forked crash, re-open from disk"
